@@ -138,6 +138,7 @@ pub struct Ctx {
     out: Option<Arc<Mutex<std::io::Stdout>>>,
     pub replay_mode: bool,
     pub gram_bin: String,
+    pub tmp_dir: String,
 }
 
 impl Ctx {
@@ -160,6 +161,7 @@ impl Ctx {
             out: None,
             replay_mode: false,
             gram_bin: std::env::var("GV_GRAM_BIN").unwrap_or_default(),
+            tmp_dir: format!("{VERIF_DIR}/.cache/run/replay.{}", std::process::id()),
         }
     }
     pub fn count(&mut self, k: &str) {
@@ -352,11 +354,13 @@ pub fn worker_main(prop: &'static dyn Prop, tier: Tier, seed: u64, shard: u64, n
         });
     }
     let out2 = out.clone();
+    let tmp_dir = format!("{run_dir}/w{shard}");
     let handle = thread::Builder::new()
         .stack_size(STACK)
         .spawn(move || {
             let mut ctx = Ctx::new(prop.id(), tier, seed);
             ctx.out = Some(out2);
+            ctx.tmp_dir = tmp_dir;
             let mut g = start;
             // Align to this shard.
             while g % nshards != shard {
